@@ -99,6 +99,27 @@ def _mon(name):
     return m
 
 
+def _fanin(name):
+    """Extra suite: fan-in scenarios (see sched_corr.gen_fanin_scenario) with the property's monitor."""
+    def extra(o, driver, rng):
+        import sched_corr as scorr
+        n_sc, n_sched = (100, 3) if o.tier == "quick" else (2500, 5)
+        scs = [scorr.gen_fanin_scenario(rng) for _ in range(n_sc)]
+        res = scorr.run_sched_suite(driver, rng, n_sc, n_sched, name="fanin", monitor=_mon(name), scenarios=scs)
+        o.suites.append(res)
+        o.violations.extend(res["violations"])
+        o.monitor_stats["fanin_traces_monitored"] = res["traces"]
+        o.monitor_stats["impl_monitor_violations"] = o.monitor_stats.get("impl_monitor_violations", 0) + len(res["violations"])
+    return extra
+
+
+def _both(*extras):
+    def extra(o, driver, rng):
+        for e in extras:
+            e(o, driver, rng)
+    return extra
+
+
 def _replay_d7(pid):
     """Replay the listed witness of finding D7 on the implementation."""
     def extra(o, driver, rng):
@@ -119,8 +140,8 @@ SCHED_ASSUME = ["simulators always answer; replies API-compliant except where a 
                 "theorems are about the transition system whose actions are the atomic blocks between awaits; asyncio only chooses which enabled action fires next"]
 
 PROPERTIES["C01"] = {"run": _sched(_mon("C01")), "assumptions": SCHED_ASSUME}
-PROPERTIES["C02"] = {"run": _sched(_mon("C02")), "assumptions": SCHED_ASSUME + ["completeness is proved for runs that end (complete_at_end); that runs end is proved only as deadlock freedom for flat configurations (C05), otherwise monitor + correspondence"]}
-PROPERTIES["C05"] = {"run": _sched(_mon("C05"), extra=_replay_d7("C05")), "assumptions": SCHED_ASSUME + ["deadlock freedom is a theorem for flat (group-less) configurations (hypotheses evaluated per scenario by the driver: wfx); for grouped configurations and for termination: monitor + correspondence only"]}
+PROPERTIES["C02"] = {"run": _sched(_mon("C02"), extra=_fanin("C02")), "assumptions": SCHED_ASSUME + ["completeness is proved for runs that end (complete_at_end); that runs end is proved only as deadlock freedom for flat configurations (C05), otherwise monitor + correspondence"]}
+PROPERTIES["C05"] = {"run": _sched(_mon("C05"), extra=_both(_fanin("C05"), _replay_d7("C05"))), "assumptions": SCHED_ASSUME + ["deadlock freedom is a theorem for flat (group-less) configurations (hypotheses evaluated per scenario by the driver: wfx); for grouped configurations and for termination: monitor + correspondence only"]}
 def _c07_extra(o, driver, rng):
     """Diamond scenarios (several trigger paths of different delay) + the ancestor-table correspondence."""
     import sched_corr as scorr, suites_world as sw
@@ -328,7 +349,7 @@ def _c04(o, driver, rng):
     k = 0
     while k < n_cross:
         # half of the budget on scenarios outside every known data-flow finding class (where a difference is never masked)
-        sc = scorr.gen_clean_scenario(rng) if k % 2 else scorr.gen_scenario(rng)
+        sc = (scorr.gen_scenario, scorr.gen_clean_scenario, scorr.gen_fanin_scenario)[k % 3](rng)
         sc["sparse_persistent"] = False       # omitting a persistent output is a simulator-side contract breach (mosaik warns); see DESIGN.md
         if scorr.nonuniform_cutoff(sc, False):
             continue
